@@ -11,18 +11,23 @@ import common as c
 
 PID = "C20"
 MANIFEST = {
-    "text": "Coq theorems over ALL doubles and all library-oracle behaviours of the documented digit shape: the "
-            "display text matches the numeral grammar (sign, integer digits grouped in threes, fraction | mantissa e "
-            "exponent | NaN/Infinity/-Infinity), grouping/trimming/separator insertion change no value, integers "
-            "below 2^53 in standard notation are shown exactly (no oracle), no overflow panic; the 15-significant-digit "
-            "accuracy clause is PARTIAL: proved for the scientific range (under library-correctness hypotheses) and "
-            "for integers; for standard-range non-integers it is stated as C20_accuracy_full and decided by "
-            "exact-rational search on the implementation (the defect C20-F1 found this way is fixed in /repo 60da55e); model tied to the code by the DISPLAY correspondence (vm_compute vs Rust on bit patterns "
-            "and boundaries) and by ORACLE streams validating the executable library models",
+    "text": "15 Coq theorems over ALL doubles, all library-oracle behaviours meeting stated hypotheses: the display "
+            "text matches the numeral grammar (sign, integer digits grouped in threes, fraction | mantissa e exponent | "
+            "NaN/Infinity/-Infinity) for every valid double (shape hypotheses on {:.N}/{:.14e}/parse + coarse bounds on "
+            "log10/powi; Flocq no-overflow proof); grouping/trimming/separator insertion change no value; integers in "
+            "the standard range (< 2^53) are shown exactly with no oracle; no overflow panic; 15-significant-digit "
+            "accuracy proved on all three paths under explicit correctness specifications of the library calls "
+            "(integers: error 0; scientific range: <= 1/2 unit; standard non-integers, repaired code: <= 5/8 unit, "
+            "Flocq real analysis) - it is PARTIAL in that the executable library models are tested (ORACLE streams), "
+            "not proved, against those specifications (C20_accuracy_full stays a Prop); model tied to the code by the "
+            "DISPLAY correspondence (vm_compute vs Rust on bit patterns and boundaries); implementation-level "
+            "exact-rational search of the property itself (found C20-F1, fixed in /repo 60da55e)",
     "note": "trusted: Coq kernel + vm_compute; hand transcription of format_display_number and helpers (validated by "
             "DISPLAY); library oracles log10/powi/{:.N}/{:.14e}/parse::<f64> are Section variables in the theorems "
-            "(shape hypotheses only) and exact Z implementations when running (validated by ORACLE streams; log10 by "
-            "lookup of the real function's values); accuracy clause partial (search only)",
+            "(shape / correctness hypotheses stated in each theorem) and exact Z implementations when running "
+            "(validated by ORACLE streams; log10 by lookup of the real function's values); axioms: none for 13 "
+            "theorems, the Flocq/Reals axioms of the allow-list for C20_wellformed_total and "
+            "C20_accuracy_partial_standard",
     "design_ref": "DESIGN.md section 6 C20; notes/C20.md",
 }
 
@@ -516,7 +521,8 @@ def main(argv):
     res.assumptions = [
         "library oracles (f64::log10, powi, {:.N}, {:.14e}, parse::<f64>) are Section variables in the theorems; "
         "their executable Gallina models are validated by the ORACLE streams only",
-        "15-significant-digit accuracy is decided by exact-rational search on the implementation, not proved",
+        "15-significant-digit accuracy is proved only relative to correctness specifications of the library calls "
+        "(stated as hypotheses in C20_accuracy_partial_*); on the implementation it is decided by exact-rational search",
     ]
     return res.finish()
 
